@@ -12,7 +12,8 @@ Require Import Fggs.Proofs.BigSum Fggs.Proofs.SP_trees Fggs.Proofs.SP_nonrec Fgg
                Fggs.Proofs.SP_examples
                Fggs.Proofs.Dual_ring Fggs.Proofs.Dual_leibniz Fggs.Proofs.Dual_trees Fggs.Proofs.Dual_J
                Fggs.Proofs.Dual_vjp Fggs.Proofs.Dual_encl Fggs.Proofs.Dual_examples
-               Fggs.Proofs.SP_main Fggs.Proofs.Dual_back Fggs.Proofs.Dual_nonrec Fggs.Proofs.Dual_check Fggs.Proofs.Dual_log Fggs.Proofs.Dual_logblock.
+               Fggs.Proofs.SP_main Fggs.Proofs.Dual_back Fggs.Proofs.Dual_nonrec Fggs.Proofs.Dual_check Fggs.Proofs.Dual_log Fggs.Proofs.Dual_logblock Fggs.Proofs.SemiringLaws Fggs.Proofs.Dual_ereal.
+Local Open Scope nat_scope.
 
 (** * 0. The oracle of the correspondence check is sound *)
 (** verdict 0 of [grad_check_real]: the grammar is well-formed and every observed gradient entry
@@ -303,14 +304,11 @@ Theorem C03_example_gradient :
 Proof. exact (conj grad_S_f12 backward_S_f). Qed.
 Print Assumptions C03_example_gradient.
 (** * 8. J_log (Log semiring, read through exp) *)
-(** The block-level statement (C03_log, proved at the end of this file): for a division [dv] that is exact on
-    finite non-zero denominators, every cell (xi, yi) of every block (n, l) satisfies
-      J_log_val (J_log_contribs G comp e wi) n l (xi ++ yi) = Some v   with
-      v * F_n(xi) = J_val (J_contribs G comp e wi) n l (xi ++ yi) * x_l(yi)
-    provided every rule of n has a finite non-zero sum-product at xi, i.e.
-    J_log = diag(1/F x) J diag(x).  Proved below: the identity for every single (rule, edge)
-    contribution (the block is their sum), from  full product = leave-one-out product * edge value
-    and  row sum of the full product = the rule's sum-product. *)
+(** [J_log_contribs] models the code as it is now (b84d904: nan_to_num_ on every (rule, edge) tensor
+    after exp, so a rule whose sum-product is zero contributes nothing); [J_log_old_contribs] /
+    [J_log_old_val] model the code before that repair (one nan poisons the block). *)
+
+(** the algebraic heart, per (rule, edge) contribution *)
 Theorem C03_log_partial :
   forall R (o : sr_ops R), sr_ring o ->
   forall G, wf_grammar G = true ->
@@ -336,32 +334,63 @@ Theorem C03_log_rowsum :
 Proof. exact (fun R o H G E => @full_rowsum R o H G E). Qed.
 Print Assumptions C03_log_rowsum.
 
-(** the code as it stands violates the property when a rule's sum-product is zero (finding
-    c03_log_dead_rule_nan): S -> t(n) | t(n) X, X without rules, t = [1/4, 1/4]: the J_log block
-    (S, t) is nan (0 after nan_to_num) although J * x / F = 1 * (1/4) / (1/2) = 1/2 *)
-Theorem C03_log_dead_rule_refuted :
-  J_log_val ereal_ops (J_log_contribs ereal_ops ediv G_dead [0] E_dead true) 0 2 [1] = None
-  /\ nan_to_zero ereal_ops (J_log_val ereal_ops (J_log_contribs ereal_ops ediv G_dead [0] E_dead true) 0 2 [1]) = Fin nn0
+(** C03_log (tier B, proved) for the code as it is now: block (n, l), cell (xi, yi), total
+    environment E, a division that is exact on [ok] denominators with 0/0 = nan, a zero-sum-free
+    semiring.  The dead-rule guard is gone; what is left is finiteness: every rule value and
+    their total F_n is zero or [ok] at xi.  Then
+      J_log[(n, l)](xi, yi) * F_n(xi) = J[(n, l)](xi, yi) * x_l(yi),
+    i.e. J_log = diag(1/F x) J diag(x), the Jacobian of log F w.r.t. the log-values *)
+Theorem C03_log :
+  forall R (o : sr_ops R), sr_ring o ->
+  forall G, wf_grammar G = true ->
+  forall (E : env (R:=R)) (dv : R -> R -> option R) (ok : R -> Prop),
+    (forall a b, ok b -> exists c, dv a b = Some c /\ mul o c b = a) ->
+    (forall a b, add o a b = zero o -> a = zero o /\ b = zero o) ->
+    dv (zero o) (zero o) = None ->
+  forall comp wi n l xi yi,
+    NoDup comp -> In n comp -> In xi (all_assts (lshape G n)) -> In yi (all_assts (lshape G l)) ->
+    (forall r, In r (rules_of G n) -> rule_val o G E r xi = zero o \/ ok (rule_val o G E r xi)) ->
+    (sumS o (rules_of G n) (fun r => rule_val o G E r xi) = zero o
+     \/ ok (sumS o (rules_of G n) (fun r => rule_val o G E r xi))) ->
+    mul o (J_val o (J_log_contribs o dv G comp (fun l => Some (E l)) wi) n l (xi ++ yi))
+          (sumS o (rules_of G n) (fun r => rule_val o G E r xi))
+    = mul o (J_val o (J_contribs o G comp (fun l => Some (E l)) wi) n l (xi ++ yi)) (E l yi).
+Proof. exact (fun R o H G Hwf E dv ok Hdv Hz Hn => @J_log_block R o H G Hwf E dv ok Hdv Hz Hn). Qed.
+Print Assumptions C03_log.
+
+(** the instance [0, inf] with the floats' division: the only guard is that the rule values and
+    their total are finite *)
+Theorem C03_log_ereal :
+  forall G (E : env (R:=ereal)) comp wi n l xi yi,
+  wf_grammar G = true ->
+  NoDup comp -> In n comp -> In xi (all_assts (lshape G n)) -> In yi (all_assts (lshape G l)) ->
+  (forall r, In r (rules_of G n) -> rule_val ereal_ops G E r xi <> PInf) ->
+  sumS ereal_ops (rules_of G n) (fun r => rule_val ereal_ops G E r xi) <> PInf ->
+  emul (J_val ereal_ops (J_log_contribs ereal_ops ediv G comp (fun l => Some (E l)) wi) n l (xi ++ yi))
+       (sumS ereal_ops (rules_of G n) (fun r => rule_val ereal_ops G E r xi))
+  = emul (J_val ereal_ops (J_contribs ereal_ops G comp (fun l => Some (E l)) wi) n l (xi ++ yi)) (E l yi).
+Proof. exact J_log_block_ereal. Qed.
+Print Assumptions C03_log_ereal.
+
+(** the former failing input S -> t(n) | t(n) X, X without rules, t = [1/4, 1/4]: the block (S, t)
+    is now J * x / F = 1 * (1/4) / (1/2) = 1/2 *)
+Theorem C03_log_dead_rule_now :
+  eeqb (J_val ereal_ops (J_log_contribs ereal_ops ediv G_dead [0] E_dead true) 0 2 [1]) half = true.
+Proof. exact log_dead_rule_now. Qed.
+Print Assumptions C03_log_dead_rule_now.
+
+(** the code BEFORE b84d904 ([J_log_old]; finding c03_log_dead_rule_nan, fixed): the same block was
+    nan (0 after nan_to_num) although J * x / F = 1/2; it satisfied the identity only under the
+    guard that every rule value is invertible *)
+Theorem C03_log_old_dead_rule_refuted :
+  J_log_old_val ereal_ops (J_log_old_contribs ereal_ops ediv G_dead [0] E_dead true) 0 2 [1] = None
+  /\ nan_to_zero ereal_ops (J_log_old_val ereal_ops (J_log_old_contribs ereal_ops ediv G_dead [0] E_dead true) 0 2 [1]) = Fin nn0
   /\ eeqb (J_val ereal_ops (J_contribs ereal_ops G_dead [0] E_dead true) 0 2 [1]) (Fin nn1) = true
   /\ eeqb (emul (J_val ereal_ops (J_contribs ereal_ops G_dead [0] E_dead true) 0 2 [1]) quarter) (emul half half) = true.
 Proof. exact log_dead_rule_refuted. Qed.
-Print Assumptions C03_log_dead_rule_refuted.
+Print Assumptions C03_log_old_dead_rule_refuted.
 
-(** without the dead rule (the guard of C03_log_partial holds) the block is 1/2 *)
-Theorem C03_log_live_rule_example :
-  match J_log_val ereal_ops (J_log_contribs ereal_ops ediv G_live [0] E_dead true) 0 2 [1] with
-  | Some v => eeqb v half
-  | None => false
-  end = true.
-Proof. exact log_live_rule_value. Qed.
-Print Assumptions C03_log_live_rule_example.
-
-(** C03_log (tier B, proved): the block (n, l) of J_log at every cell (xi, yi), for a total
-    environment E and a division that is exact on [ok] denominators: if every rule of n and
-    their total F_n have an [ok] (finite non-zero) sum-product at xi then the entry is a number v
-    with  v * F_n(xi) = J[(n, l)](xi, yi) * x_l(yi),  i.e.  J_log = diag(1/F x) J diag(x),  the
-    Jacobian of log F with respect to the log-values *)
-Theorem C03_log :
+Theorem C03_log_old_guarded :
   forall R (o : sr_ops R), sr_ring o ->
   forall G, wf_grammar G = true ->
   forall (E : env (R:=R)) (dv : R -> R -> option R) (ok : R -> Prop),
@@ -371,17 +400,61 @@ Theorem C03_log :
     (forall r, In r (rules_of G n) -> ok (rule_val o G E r xi)) ->
     ok (sumS o (rules_of G n) (fun r => rule_val o G E r xi)) ->
     exists v,
-      J_log_val o (J_log_contribs o dv G comp (fun l => Some (E l)) wi) n l (xi ++ yi) = Some v
+      J_log_old_val o (J_log_old_contribs o dv G comp (fun l => Some (E l)) wi) n l (xi ++ yi) = Some v
       /\ mul o v (sumS o (rules_of G n) (fun r => rule_val o G E r xi))
          = mul o (J_val o (J_contribs o G comp (fun l => Some (E l)) wi) n l (xi ++ yi)) (E l yi).
-Proof. exact (fun R o H G Hwf E dv ok Hdv => @J_log_block R o H G Hwf E dv ok Hdv). Qed.
-Print Assumptions C03_log.
+Proof. exact (fun R o H G Hwf E dv ok Hdv => @J_log_old_block R o H G Hwf E dv ok Hdv). Qed.
+Print Assumptions C03_log_old_guarded.
 
-(** finding c03_fixed_point_empty_solution: X -> X a | b, a = 1/4, b = 0: Z = 0 but the derivative
-    with respect to b is 1, 1 + 1/4, 1 + 1/4 + 1/16 = 21/16, ... (-> 4/3), not 0 *)
+(** * 9. The derivative at a zero weight (finding c03_fixed_point_empty_solution, fixed in 839ae95) *)
+(** X -> X a | b, a = 1/4, b = 0: Z = 0 but the derivative with respect to b is
+    1, 1 + 1/4, 1 + 1/4 + 1/16 = 21/16, ... (-> 4/3), not 0 *)
 Theorem C03_zero_weight_derivative_witness :
   eeqb (Zk ereal_ops G_rec0 W_rec0 3 2 []) (Fin nn0) = true
   /\ eeqb (grad_model ereal_ops G_rec0 W_rec0 1 [] 1 2 []) (Fin nn1) = true
   /\ eeqb (grad_model ereal_ops G_rec0 W_rec0 1 [] 3 2 []) (Fin (nn_of_Q (21 # 16))) = true.
 Proof. exact zero_weight_derivative_witness. Qed.
 Print Assumptions C03_zero_weight_derivative_witness.
+
+(** * 10. Instances for [0, inf] (RealSemiring; LogSemiring read through exp): laws discharged *)
+Theorem C03_dual_ereal_laws : sr_ring dops /\ sr_ordered dops /\ sr_star dops.
+Proof. exact (conj dops_ring (conj dops_ordered dops_star)). Qed.
+Print Assumptions C03_dual_ereal_laws.
+
+Theorem C03_nonrecursive_gradient_ereal :
+  forall G, wf_grammar G = true ->
+  forall (w : tmt (R:=ereal)), (forall l, tget w l <> None -> is_term G l = true) ->
+  forall ord, dep_ordered G [] ord -> NoDup ord -> (forall X, is_term G X = false -> In X ord) ->
+  forall (cot : list ereal) l0 i0,
+    is_term G l0 = true -> l0 < length (g_labels G) -> In i0 (all_assts (lshape G l0)) ->
+    length cot = length (all_assts (lshape G (g_start G))) ->
+    env_of ereal_ops (backward_nonrec ereal_ops G w (map (fun x => [x]) ord) cot) l0 i0
+    = sumS ereal_ops (combine (all_assts (lshape G (g_start G))) cot)
+           (fun p => emul (snd p) (grad_model ereal_ops G (env_of ereal_ops w) l0 i0 (length ord) (g_start G) (fst p))).
+Proof. exact (fun G Hwf w Hk ord Hd Hn Hc => @nonrecursive_gradient ereal ereal_ops ereal_ring G Hwf w Hk ord Hd Hn Hc). Qed.
+Print Assumptions C03_nonrecursive_gradient_ereal.
+
+Theorem C03_tree_derivative_ereal :
+  forall G (w : env (R:=ereal)) l0 i0 k X xi, is_term G X = false ->
+    grad_model ereal_ops G w l0 i0 k X xi
+    = sumS ereal_ops (enum_trees G k X xi)
+           (fun t => sumS ereal_ops (occurrences (l0, i0) (leaves G t))
+                          (fun s => prodS ereal_ops (fst (fst s) ++ snd s) (wt w))).
+Proof. exact (@tree_derivative_entry ereal ereal_ops ereal_ring). Qed.
+Print Assumptions C03_tree_derivative_ereal.
+
+(** the oracle of the check without premises *)
+Theorem C03_entry_interval_sound_ereal :
+  forall G ws is_log rounds nonrec cot l i0 wv iv,
+  wf_grammar G = true -> (0 <= wq_of wv)%Q ->
+  entry_interval G ws is_log rounds nonrec cot l i0 wv = Some (Some iv) ->
+  exists K, forall k, (if nonrec then k = length (nonterminals G) else K <= k) ->
+    exists gs,
+      Forall2 (fun xi g => exists az ad,
+                 Zk dops G (env_of dops (dual_weights G ws l i0)) k (g_start G) xi = (Fin az, Fin ad)
+                 /\ (is_log = true -> (0 < this (qv az))%Q)
+                 /\ g = cell_quantity is_log (wq_of wv) (this (qv az)) (this (qv ad)))
+              (all_assts (lshape G (g_start G))) gs
+      /\ (fst iv <= dot cot gs)%Q /\ (dot cot gs <= snd iv)%Q.
+Proof. exact entry_interval_sound_ereal. Qed.
+Print Assumptions C03_entry_interval_sound_ereal.
